@@ -78,6 +78,9 @@ func (r *Recorder) Events() []Event {
 type recCM struct {
 	*chain.Manager
 	rec *Recorder
+	// gate, if set, is called before every AddBlocks / AddValidatedV2Blocks: it lets a scenario hold
+	// the verdict back until the victim has noticed that the serving peer hung up
+	gate func()
 }
 
 var _ syncer.ChainManager = (*recCM)(nil)
@@ -102,6 +105,9 @@ func (c *recCM) names(blocks []types.Block) []string {
 }
 
 func (c *recCM) AddBlocks(blocks []types.Block) error {
+	if c.gate != nil {
+		c.gate()
+	}
 	c.rec.mu.Lock()
 	defer c.rec.mu.Unlock()
 	// blocks the harness never built (mutated by a scripted peer) are registered with their
@@ -113,6 +119,9 @@ func (c *recCM) AddBlocks(blocks []types.Block) error {
 }
 
 func (c *recCM) AddValidatedV2Blocks(blocks []types.Block, states []consensus.State) error {
+	if c.gate != nil {
+		c.gate()
+	}
 	c.rec.mu.Lock()
 	defer c.rec.mu.Unlock()
 	c.rec.w.classifyUnknown(blocks)
